@@ -182,8 +182,37 @@ def run(ctx: Ctx):
             one("out int i0;\nhook h0;\nfinishcode F0;\n" + decl + '\nparser {\n "a";\n}\n', args, "chaos-decl")
             one(decl + '\nparser {\n "a";\n}\n', args, "chaos-decl")
     if not ctx.quick:
-        for big in ("/a{1000}/", "/(a|b|c){400}/", "/((a{10}){10}){10}/"):
+        for big in ("/a{1000}/", "/(a|b|c){300}/", "/((a{10}){10}){10}/"):
             one('parser {\n %s;\n "z";\n}\n' % big, [], "huge-repeat")
+    # the real command line (main() itself: option handling, recursion limit, the except clauses) on long chains and deep nesting
+    import os
+    import subprocess
+    import tempfile
+    repo = os.environ.get("VERIF_REPO", "/repo")
+    cli = [("long-literal", 'parser {\n "%s";\n}\n' % ("ab" * 650), []), ("nested-groups", "parser {\n /%sa%s/;\n}\n" % ("(" * 120, ")" * 120), []),
+           ("nested-blocks", "parser {\n" + "optional {\n" * 60 + '"a";\n' + "}\n" * 60 + '"b";\n}\n', []),
+           ("undefined-name", 'parser {\n x = 1;\n "a";\n}\n', []), ("bad-option", 'parser {\n "a";\n}\n', ["-O9"])]
+    if not ctx.quick:
+        cli += [("long-repeat", 'parser {\n /a{1000}/;\n "z";\n}\n', []), ("long-binary", 'parser {\n "%s"b;\n}\n' % ("61 " * 2500), ["-O3"]),
+                ("long-case", "parser {\n case {\n" + "".join(' "k%04d" -> {}\n' % i for i in range(1500)) + " }\n}\n", [])]
+    with tempfile.TemporaryDirectory(prefix="c18cli") as td:
+        for label, src, args in cli:
+            fn = os.path.join(td, "prs.nmfu")
+            open(fn, "w").write(src)
+            ctx.evaluations += 1
+            ctx.count("cli_runs")
+            try:
+                pr = subprocess.run(["/venv/bin/python", os.path.join(repo, "nmfu.py")] + args + [fn], cwd=td, capture_output=True, text=True, timeout=900)
+            except subprocess.TimeoutExpired:
+                unresolved.append({"nmfu_source": src, "nmfu_args": args, "why": "command line run exceeded the watchdog"})
+                continue
+            ctx.nontrivial(("cli", label))
+            if "Traceback (most recent call last)" in pr.stderr:
+                last = pr.stderr.strip().splitlines()[-1]
+                ctx.violation("c18:cli-traceback:%s" % last.split(":")[0], "the command line died with a traceback on %s: %s" % (label, last[:160]),
+                              {"nmfu_source": src[:3000], "nmfu_args": args, "stderr_tail": pr.stderr[-1500:], "label": label})
+            elif pr.returncode != 0 and not pr.stderr.strip():
+                ctx.violation("c18:cli-silent-failure", "exit status %d without a message on %s" % (pr.returncode, label), {"nmfu_source": src[:3000], "nmfu_args": args})
     ctx.cov.update({"status_" + k: v for k, v in classes.items()})
     ctx.extra["cases_over_4s"] = slow_log[:40]
     ctx.extra["unresolved_slow_cases"] = [dict(u, nmfu_source=u["nmfu_source"][:1500]) for u in unresolved[:5]]
